@@ -76,7 +76,7 @@ Definition renewal_verify (ts : list trc) (r : request) (now : Z) : bool :=
   | Some (a :: c) =>
     let ch := a :: c in
     (r_version r =? 1) && (r_nsigners r =? 1)
-    && (r_sid r =? c_id a)                                  (* signed with the AS certificate *)
+    && (negb (r_sid r =? 0) && (r_sid r =? c_id a))         (* the SignerInfo names a certificate: the AS certificate *)
     && client_chain_ok ts ch now
     && r_type_data r
     && (r_digest_ok r && negb (r_sig_key r =? 0) && (r_sig_key r =? c_key a))   (* verifySignerInfo *)
@@ -100,7 +100,7 @@ Definition spec_client_ok (ts : list trc) (ch : chain) (now : Z) : bool :=
             || (in_grace t now
                 && match find_trc ts isd (t_base t) (t_serial t - 1) with
                    | None => false
-                   | Some g => spec_chain_ok ch g now
+                   | Some g => trc_contains g now && spec_chain_ok ch g now
                    end))
       end
     | _ => false
@@ -112,7 +112,7 @@ Definition spec_request_ok (ts : list trc) (r : request) (now : Z) : bool :=
   (r_nsigners r =? 1)                                                     (* a single signer *)
   && existsb (fun a =>
        existsb (fun c =>
-         (r_sid r =? c_id a)                                              (* ... whose certificate is the AS certificate of the included chain *)
+         (negb (r_sid r =? 0) && (r_sid r =? c_id a))                     (* ... whose certificate is the AS certificate of the included chain *)
          && spec_client_ok ts [a; c] now                                  (* the chain verifies against latest / predecessor in grace *)
          && (r_digest_ok r && (r_sig_key r =? c_key a) && negb (r_sig_key r =? 0))  (* the signature covers the request *)
          && ia_eqb (r_csr_ia r) (c_subject_ia a))                         (* same subject ISD-AS *)
